@@ -126,6 +126,39 @@ def rnp_known_region(draw):
     return {"alg": "rnp", "values": values, "numbins": k, "pres": "list", "nseed": 0, "known_region": True}
 
 
+DEEP_SIZES = {3: 10, 4: 9, 5: 8}
+
+
+@st.composite
+def deep_cases(draw):
+    """The search algorithms at the largest sizes the exhaustive oracle still covers, on evenly spread values: the region where
+    nested pruning (SNP / RNP recursion below the first level, CKK and complete-greedy bounds deep in the tree) is exercised."""
+    alg = draw(st.sampled_from(["snp", "snp", "rnp", "rnp", "ckk", "cg"]))
+    k = draw(st.sampled_from([3, 4, 4, 4, 5, 5]))
+    n = DEEP_SIZES[k] - draw(st.sampled_from([0, 0, 0, 1]))
+    profile = draw(st.sampled_from(["uniform-200", "uniform-200", "uniform-40", "uniform-10^6", "near-equal-large"]))
+    seed = draw(st.integers(0, 2 ** 40))
+    if profile == "uniform-200":
+        values = S.splitmix(seed, n, 1, 200)
+    elif profile == "uniform-40":
+        values = S.splitmix(seed, n, 1, 40)
+    elif profile == "uniform-10^6":
+        values = S.splitmix(seed, n, 1, 10 ** 6)
+    else:
+        base = draw(st.sampled_from([10 ** 6, 2 ** 24, 10 ** 9]))
+        values = [base * m + d for m, d in zip(S.splitmix(seed, n, 1, 4), S.splitmix(seed + 1, n, 0, 50))]
+    case = {"alg": alg, "values": values, "numbins": k, "pres": "list", "nseed": 0, "profile": "deep-" + profile}
+    if alg == "cg":
+        case["opts"] = {"objective": draw(st.sampled_from(S.CG_OBJECTIVES)), "switches": draw(st.sampled_from([[1, 1, 0, 1], [1, 1, 1, 1], [1, 0, 0, 1]]))}
+    return case
+
+
+def valid_deep(case):
+    if not cases.valid_partition_case(dict(case, alg="greedy")):
+        return False
+    return case["alg"] in ("snp", "rnp", "ckk", "cg") and 2 <= case["numbins"] <= 5 and len(case["values"]) <= DEEP_SIZES.get(case["numbins"], 10)
+
+
 def valid(case):
     if not cases.valid_partition_case(case):
         return False
@@ -145,6 +178,10 @@ def legs(tier):
             "combinations (quick: 2% slice; ILP a quarter per thorough run); same non-triviality rule",
             enum=exhaustive_cases, valid=valid, exhaustive=True,
             scope="multisets(<=6 from 0..7) x numbins 1..4 x (dp,ilp x 3+2*|{1,2,k,k+1}| objectives; cg x 3 x 16; ckk; snp; rnp)"),
+        Leg("deep", evaluate,
+            "hypothesis: snp / rnp / ckk / complete greedy at the largest sizes the oracle covers (10 items x 3 bins, 9 x 4, 8 x 5) on "
+            "evenly spread values (1..40, 1..200, 1..10^6, near-equal large values); same oracle and non-triviality rule",
+            strategy=deep_cases(), n_quick=1600, n_thorough=40000, valid=valid_deep, floor=0.3),
         Leg("known-rnp>=6", evaluate, "rnp with 6-7 bins: the region of the recorded known finding",
             strategy=rnp_known_region(), n_quick=40, n_thorough=400, shards=1, valid=cases.valid_partition_case),
     ]
